@@ -161,6 +161,32 @@ var Templates = []*Template{
 			return fmt.Sprintf("func vfOld%d(x %s) {\n\t%s\n}", k, r.Pick([]string{"int", "string", "Config"}), GenStmt(r, 0, nil))
 		},
 	},
+	{
+		Name: "type-rename",
+		Patch: func(k int) string {
+			return fmt.Sprintf("@@\nvar T identifier\n@@\n-type VfOld%d T\n+type VfNew%d T\n", k, k)
+		},
+		Trigger: func(k int) string { return fmt.Sprintf("VfOld%d", k) },
+		Decl: func(r *world.PRNG, k int) string {
+			return fmt.Sprintf("type VfOld%d %s", k, r.Pick([]string{"int", "string", "Config"}))
+		},
+	},
+	{
+		// fixed arguments on both sides of the elision
+		Name: "dots-sandwich",
+		Patch: func(k int) string {
+			return fmt.Sprintf("@@\n@@\n-vfOld%d(ctx, ..., id)\n+vfNew%d(ctx, ..., id)\n", k, k)
+		},
+		Trigger: func(k int) string { return fmt.Sprintf("vfOld%d", k) },
+		Stmt: func(r *world.PRNG, k int) string {
+			n := r.Intn(3)
+			args := []string{"ctx"}
+			for i := 0; i < n; i++ {
+				args = append(args, GenExpr(r, 1))
+			}
+			return fmt.Sprintf("vfOld%d(%s, id)", k, strings.Join(args, ", "))
+		},
+	},
 }
 
 // TemplateByName looks a template up.
@@ -225,4 +251,102 @@ var Misfits = []*Misfit{
 		Patch: func(k int) string { return fmt.Sprintf("@@\nvar x expression\n@@\n-vfChk%d(x)\n+switch x {\n+}\n", k) },
 		Stmt:  func(k int) string { return fmt.Sprintf("vfChk%d(Node{Val: 1})", k) },
 	},
+}
+
+// NearMisses returns statements and top-level declarations that mention the
+// trigger of change (t, k) and still are no instance of its "-" side: the code
+// differs from the pattern in a token the pattern spells out (a variadic
+// "...", an "=", the number of arguments or parameters, a receiver), or the
+// trigger occurs only inside a string, a comment or a longer identifier.
+func NearMisses(t *Template, k int) (stmts, decls []string) {
+	trig := t.Trigger(k)
+	// in every case: the trigger in a string literal, a comment and a longer identifier
+	stmts = []string{
+		fmt.Sprintf("_ = \"%s(1)\"", trig),
+		fmt.Sprintf("// %s(1) used to be called here", trig),
+		fmt.Sprintf("%sx(1)", trig),
+		fmt.Sprintf("_ = `\n%s(1)\n`", trig),
+	}
+	switch t.Name {
+	case "call-rename", "stmt-expand", "duplicate-stmt":
+		stmts = append(stmts,
+			fmt.Sprintf("%s(xs...)", trig),
+			fmt.Sprintf("%s()", trig),
+			fmt.Sprintf("%s(1, 2)", trig),
+			fmt.Sprintf("%s(1, xs...)", trig),
+			fmt.Sprintf("%s[int](1)", trig),
+			fmt.Sprintf("_ = %s", trig),
+		)
+	case "swap-args":
+		stmts = append(stmts,
+			fmt.Sprintf("%s(1)", trig),
+			fmt.Sprintf("%s(1, 2, 3)", trig),
+			fmt.Sprintf("%s(1, xs...)", trig),
+			fmt.Sprintf("%s()", trig),
+		)
+	case "method-rename":
+		stmts = append(stmts,
+			fmt.Sprintf("a.b.%s()", trig),
+			fmt.Sprintf("a.%s(1)", trig),
+			fmt.Sprintf("_ = a.%s", trig),
+			fmt.Sprintf("f().%s()", trig),
+			fmt.Sprintf("%s()", trig),
+		)
+	case "shrink":
+		stmts = append(stmts,
+			fmt.Sprintf("%s(1, nil, nil)", trig),
+			fmt.Sprintf("%s(1, nil, nil, nil, nil)", trig),
+			fmt.Sprintf("%s(1, nil, nil, 0)", trig),
+			fmt.Sprintf("%s(1, nil, nil, xs...)", trig),
+		)
+	case "package-guarded":
+		stmts = append(stmts, fmt.Sprintf("%s(1)", trig), fmt.Sprintf("%s(xs...)", trig))
+	case "funcdecl-rename":
+		decls = append(decls,
+			fmt.Sprintf("func %s(x int, y int) {\n\tcompute(x)\n}", trig),
+			fmt.Sprintf("func (n *Node) %s(x int) {\n\tcompute(x)\n}", trig),
+			fmt.Sprintf("func %s() {\n}", trig),
+			fmt.Sprintf("func %s(x ...int) {\n}", trig),
+			fmt.Sprintf("func %s(x int) error {\n\treturn nil\n}", trig),
+			fmt.Sprintf("var %s = func(x int) {\n}", trig),
+		)
+	case "type-rename":
+		decls = append(decls,
+			fmt.Sprintf("type %s = int", trig),
+			fmt.Sprintf("type %s[T any] int", trig),
+			fmt.Sprintf("var %s int", trig),
+		)
+	case "dots-sandwich":
+		stmts = append(stmts,
+			fmt.Sprintf("%s(ctx)", trig),
+			fmt.Sprintf("%s()", trig),
+			fmt.Sprintf("%s(ctx, 1)", trig),
+			fmt.Sprintf("%s(1, id)", trig),
+			fmt.Sprintf("%s(id, ctx)", trig),
+			fmt.Sprintf("%s(id)", trig),
+		)
+	}
+	return
+}
+
+// NearMissFile generates a file that mentions the triggers of the given
+// changes without containing an instance of any of them.
+func NearMissFile(r *world.PRNG, cs []Change, style, header string) []byte {
+	o := GoFileOpts{Style: style, Header: header, Funcs: r.Range(1, 3)}
+	for _, ch := range cs {
+		st, de := NearMisses(ch.T, ch.K)
+		for n := r.Range(1, 3); n > 0; n-- {
+			if len(de) > 0 && r.Chance(1, 2) {
+				o.Decls = append(o.Decls, de[r.Intn(len(de))])
+			} else {
+				o.Stmts = append(o.Stmts, st[r.Intn(len(st))])
+			}
+		}
+		if ch.T.Name == "package-guarded" {
+			// the exact instance, in a file of another package
+			o.Pkg = r.Pick([]string{"sample_test", "samples", "sampl", "main", "Sample"})
+			o.Stmts = append(o.Stmts, ch.T.Stmt(r, ch.K))
+		}
+	}
+	return GenValidGoFile(r, o)
 }
